@@ -7,7 +7,8 @@ per call: the result (or exception class), every frame seen on the bus during th
 data), the peer's state afterwards and whether the call left the master's public settings (RESPONSE_TIMEOUT and
 every other public class / instance attribute of LssMaster) as it found them.  Time is virtual (shims for
 canopen.lss.queue and canopen.lss.time): silence costs nothing and "delay_ms" lets the peer answer later; two
-"clock": "real" sessions use real threads and the real queue.  Long fast-scan logs are compared with the model through a 61-bit
+"clock": "real" sessions use real threads and the real queue.  ["net", "connect" | "disconnect" | "exit"] steps
+connect / disconnect the same Network object (python-can virtual bus) inside a session.  Long fast-scan logs are compared with the model through a 61-bit
 polynomial hash ("trace": "hash"); the oracle always works on the full log.
 """
 import logging, struct
@@ -85,9 +86,10 @@ class _Shim:
     perf_counter = staticmethod(_realtime.perf_counter)
 
 
-def _make_net(peer, delays=None, real=False):
+def _make_net(peer, delays=None, real=False, debug=False):
     import canopen, canopen.lss, threading
-    logging.disable(logging.CRITICAL)
+    if not debug:                                     # "debug_log" cases run with the canopen logger at DEBUG (vlib/core.py)
+        logging.disable(logging.CRITICAL)
     canopen.lss.time = _Shim
     canopen.lss.queue = _realqueue if real else _VQueueModule
     delays = {int(k): int(v) for k, v in (delays or {}).items()}
@@ -209,6 +211,19 @@ def _call(net, op):
     if k == "fast_scan":
         ok, ids = lss.fast_scan()
         return [ok, None if ids is None else list(ids)]
+    if k == "net":
+        # the application (dis)connects the SAME Network object: a python-can virtual bus on a private channel; the
+        # frames of the session still travel through send_message / notify of this object
+        if op[1] == "connect":
+            net.NOTIFIER_CYCLE = 0.005
+            net.connect(interface="virtual", channel=f"c18-{id(net)}")
+        elif op[1] == "disconnect":
+            net.disconnect()
+        elif op[1] == "exit":
+            net.__exit__(None, None, None)
+        else:
+            raise ValueError(op)
+        return None
     if k == "inject":
         net.put(1, op[1], bytes(op[2]))
         net.notify(op[1], bytearray(op[2]), 0.0)
@@ -227,7 +242,7 @@ def run_session(c):
     per call the settings before / after, the documented time-out at the start, scheduled (delayed) replies, waits"""
     peer = make_peer(c["peer"])
     real = c.get("clock") == "real"
-    net = _make_net(peer, c.get("delay_ms"), real)
+    net = _make_net(peer, c.get("delay_ms"), real, bool(c.get("debug_log")))
     if "timeout_ms" in c:
         net.lss.RESPONSE_TIMEOUT = c["timeout_ms"] / 1000.0
     out, extra = [], []
@@ -254,6 +269,11 @@ def run_session(c):
         extra.append(dict(before=before, after=after, timeout_ms=tmo_ms, in_time=in_time,
                           sched=[(at - start, d, cid, data) for at, d, cid, data in net.sched[nsched:]],
                           waits=list(net.waits[nwait:])))
+    if getattr(net, "bus", None) is not None:         # harness clean-up, not part of the history
+        try:
+            net.disconnect()
+        except Exception:
+            pass
     return out, extra
 
 
@@ -438,6 +458,7 @@ def _gop(op):
     if k == "ident_noncfg": return "OIdentNonCfg"
     if k == "fast_scan": return "OFastScan"
     if k == "inject": return f"OInject {gz(op[1])} {gzlist(op[2])}"
+    if k == "net": return "ONet"
     raise ValueError(k)
 
 
@@ -661,6 +682,28 @@ def gen_cases(rng, tier):
             else: steps.append([rep(rng.choice((0x11, 0x13, 0x17, 0x5E, 0x5A, 0x5B, 0x5C, 0x5D, 0x44, 0x4F)), rng.choice((0, 0, 1, rng.randrange(256))),
                                     rng.randrange(256), rng.randrange(256), rng.randrange(256))] * rng.choice((1, 1, 1, 2)))
         cases.append(dict(kind="session_script", peer=script(steps), ops=ops))
+    # ---- the same Network object connected, disconnected (or left through the context manager) and connected again
+    #      before / between LSS services: results are those of a fresh network
+    def reconnect(peer, blocks, **kw):
+        ops = []
+        for j, blk in enumerate(blocks):
+            ops += [["net", "connect"]] + blk + [["net", rng.choice(("disconnect", "disconnect", "exit"))]]
+        return dict(kind="reconnect", peer=peer, ops=ops[:-1] if rng.random() < 0.5 else ops, **kw)
+    idr = [0x122, 0x5008, 0x80000000, 3]
+    cases.append(reconnect(slave(idr), [[["inq_node"]], [["fast_scan"], ["inq_addr", 0x5C], ["cfg_node", 0x21], ["store"]]]))
+    cases.append(reconnect(slave(idr), [[], [["fast_scan"]]], trace="hash"))
+    cases.append(reconnect(slave(idr, mode=1, node=9), [[], [["inq_node"], ["cfg_bit", 3], ["store"], ["inq_addr", 0x5A]]]))
+    cases.append(reconnect(slave(idr), [[["selective"] + idr], [["inq_node"]], [["global", 0], ["selective"] + idr, ["cfg_node", 5]]]))
+    for _ in range({"quick": 24, "thorough": 200, "search": 60}[tier]):
+        idt = rand_ident(rng)
+        blocks = []
+        for _ in range(rng.randrange(2, 4)):
+            blocks.append([o for o in (rand_op(rng, idt) for _ in range(rng.randrange(0, 4))) if o[0] != "inject" or o[1] == SLAVE])
+        p = slave(idt, mode=rng.choice((0, 0, 1)), node=rng.choice((255, 255, rng.randrange(1, 128))), store_err=rng.choice((0, 0, 1)))
+        c = reconnect(p, blocks)
+        if any(o[0] == "fast_scan" for o in c["ops"]):
+            c["trace"] = "hash"
+        cases.append(c)
     # ---- the harness' own RESPONSE_TIMEOUT on some modelled sessions (time is virtual, so any value is free)
     for c in cases:
         if c["kind"] in ("session", "selective", "fast_scan") and rng.random() < 0.3:
@@ -704,7 +747,7 @@ def shrink(c):
         return
     ops = c["ops"]
     for i in range(len(ops)):
-        if len(ops) > 1:
+        if len(ops) > 1 and ops[i][0] != "net":       # the connect / disconnect history stays well-formed
             yield dict(c, ops=ops[:i] + ops[i + 1:])
     p = c["peer"]
     if p["type"] == "slave":
